@@ -260,7 +260,12 @@ func newCenvWith(h map[string]string, mgr *circuit.Manager) *cenv {
 	if mgr != nil {
 		e.c = mgr.MustCreateCircuit("c", cfg)
 	} else {
-		e.c = circuit.NewCircuitFromConfig("c", cfg)
+		// the initial override flags arrive through LAYERED construction (ForceOpen in an explicit layer, ForcedClosed
+		// in a default constructor of a manager): merging must keep both, so that clearing one later leaves the other
+		lm := &circuit.Manager{DefaultCircuitProperties: []circuit.CommandPropertiesConstructor{func(string) circuit.Config {
+			return circuit.Config{General: circuit.GeneralConfig{ForcedClosed: getB(h, "fc", false)}}
+		}}}
+		e.c = lm.MustCreateCircuit("c", circuit.Config{General: circuit.GeneralConfig{ForceOpen: getB(h, "fo", false)}}, cfg)
 		// the sibling shares every factory VALUE with the circuit under test; whatever it does must leave that one alone
 		sibCfg := cfg
 		sibNow := int64(0)
@@ -269,8 +274,19 @@ func newCenvWith(h map[string]string, mgr *circuit.Manager) *cenv {
 		e.sib = circuit.NewCircuitFromConfig("sib", sibCfg)
 	}
 	e.base = e.c.Config() // merged with the library defaults (factories, time keeper)
-	applyCfg(&e.base, map[string]string{"fo": "0", "fc": "0", "dis": "0", "to": "0", "mc": "10", "ii": "0", "fbd": "0", "fbmc": "10"})
-	applyCfg(&e.base, h)
+	if mgr != nil {
+		applyCfg(&e.base, map[string]string{"fo": "0", "fc": "0", "dis": "0", "to": "0", "mc": "10", "ii": "0", "fbd": "0", "fbmc": "10"})
+		applyCfg(&e.base, h)
+	} else {
+		// fo / fc stay as the layered construction merged them
+		hh := map[string]string{"dis": "0", "to": "0", "mc": "10", "ii": "0", "fbd": "0", "fbmc": "10"}
+		for k, v := range h {
+			if k != "fo" && k != "fc" {
+				hh[k] = v
+			}
+		}
+		applyCfg(&e.base, hh)
+	}
 	e.c.SetConfigThreadSafe(e.base)
 	switch h["pt"] {
 	case "nil":
@@ -685,6 +701,10 @@ func (circuitSuite) Gen(r *rand.Rand, i int) Case {
 	hdr := fmt.Sprintf("circuit opener=%s closer=%s o_n=%d o_dur=%d o_pct=%d o_vol=%d thr=%d c_sleep=%d c_half=%d c_req=%d to=%d mc=%d fbmc=%d ii=%d iei=%s",
 		opener, closer, on, odur, 1+r.Intn(100), 1+r.Intn(4), thrV, sleep, 1+r.Intn(3), 1+r.Intn(3), to, lim(), lim(), r.Intn(2)*r.Intn(2),
 		pick(r, "unset", "unset", "always", "never", "canceled"))
+	if r.Intn(10) == 0 {
+		// override flags present from the start (they reach the circuit through layered construction)
+		hdr += fmt.Sprintf(" fo=%d fc=%d", r.Intn(2), 1-r.Intn(2)*r.Intn(2))
+	}
 	pt := ""
 	if r.Intn(16) == 0 {
 		pt = pick(r, "nil", "zero") // C08: a nil circuit and a zero-value circuit run the function untouched
